@@ -6,7 +6,7 @@ import torch
 from . import wq
 
 EVIDENCE = dict(
-    bounds="bits in {2,4}; every byte value symbolic (BV8); leading dimension 1..40 (quick) / 1..130 (thorough) x trailing shapes of rank 0..3 with dims <= 3, contiguous, transposed and step-2 sliced; plus, for every integer literal L in 24..4096 that the current source of qbits/packed.py, library/python/unpack.py, library/ext/cpp/unpack.cpp, library/ext/cpp/__init__.py, library/ops.py uses as a possible size threshold, leading dimensions L-1, L, L+1, 2L-1, 2L+1 and kernel inputs of L+1 and 2L+1 bytes (none on the pinned tree); kernel agreement on arbitrary bytes for the python kernel, the C++ kernel compiled from /repo's unpack.cpp, and the routed op with extensions enabled / disabled / raising; call histories on every route: two tensors unpacked in turn, a returned result overwritten in place, the payload rewritten through .data, then unpacked again",
+    bounds="bits in {2,4}; every byte value symbolic (BV8); leading dimension 1..40 (quick) / 1..130 (thorough) x trailing shapes of rank 0..3 with dims <= 3, contiguous, transposed and step-2 sliced; plus, for every integer literal L in 24..4096 that the current source of qbits/packed.py, library/python/unpack.py, library/ext/cpp/unpack.cpp, library/ext/cpp/__init__.py, library/ops.py uses as a possible size threshold, leading dimensions L-1, L, L+1, 2L-1, 2L+1 and kernel inputs of L+1 and 2L+1 bytes (none on the pinned tree); kernel agreement on arbitrary bytes for the python kernel, the C++ kernel compiled from /repo's unpack.cpp, and the routed op with extensions enabled / disabled / raising; call histories on every route: two tensors unpacked in turn, a returned result overwritten in place, the payload rewritten through .data, then unpacked again; ten operations on TWO packed tensors (torch.equal as a solver-flipped Boolean, eq/ne/lt/add/maximum/where, cat/stack) on equal shapes and on pairs of different unpacked shapes whose payloads have the same shape",
     outside="CUDA (unpack.cu) and MPS (unpack.mm) kernels; the mps-only branches of lshift/rshift; shapes beyond the bounds",
     assumptions=[
         "z3 bit-vector theory; transfer functions of the ATen ops listed under aten_ops_interpreted (validated bit-for-bit on every op under the seed)",
@@ -32,6 +32,10 @@ def cases(tier, seed):
         shapes = [(1,), (3,), (4, 2), (5, 3), (2, 2, 3)] if tier == "quick" else [(1,), (2,), (3,), (7,), (4, 2), (5, 3), (9, 2), (2, 2, 3), (3, 1, 2, 2)]
         out.append(dict(kind="kernels", bits=bits, shapes=[list(s) for s in shapes]))
         out.append(dict(kind="history", bits=bits, shapes=[[3], [4, 2], [2, 2, 3]]))
+        vpi = 8 // bits
+        # operations on TWO packed tensors: equal shapes, and pairs of different unpacked shapes whose payloads have the same shape
+        pairs = [[[3, 2], [3, 2]], [[vpi + 1], [2 * vpi]], [[1], [2]], [[vpi + 1, 2], [vpi + 2, 2]], [[2 * vpi - 1, 1, 2], [2 * vpi, 1, 2]]]
+        out.append(dict(kind="binops", bits=bits, pairs=pairs))
         out.append(dict(kind="ops", bits=bits, shapes=[[5, 3], [4], [3, 2, 2]] if tier == "quick" else [[5, 3], [4], [3, 2, 2], [7, 2], [9], [8, 1, 2]]))
     # sizes derived from the integer thresholds of the current source of the packer and the unpack kernels (none on the pinned tree)
     for L, where in sorted(wq.size_thresholds(THRESHOLD_FILES, hi=4096).items()):
@@ -53,6 +57,33 @@ def _layouts(shape):
 def _mk(shape, bits, layout):
     t = torch.randint(0, 2**bits, tuple(shape), dtype=torch.uint8)
     return layout(t)
+
+
+BINOPS = ["equal", "eq", "ne", "add", "maximum", "lt", "cat0", "cat_last", "stack", "where"]
+
+
+def _apply_binop(name, a, b):
+    if name == "equal":
+        return torch.equal(a, b)
+    if name == "eq":
+        return a == b
+    if name == "ne":
+        return a != b
+    if name == "add":
+        return a + b
+    if name == "maximum":
+        return torch.maximum(a, b)
+    if name == "lt":
+        return a < b
+    if name == "cat0":
+        return torch.cat([a, b], 0)
+    if name == "cat_last":
+        return torch.cat([a, b], -1)
+    if name == "stack":
+        return torch.stack([a, b])
+    if name == "where":
+        return torch.where(a > 1, a, b)
+    raise KeyError(name)
 
 
 def _apply_op(name, t):
@@ -271,6 +302,62 @@ def run_case(case, res):
             ext._lib = lib
         return
 
+    if case["kind"] == "binops":
+        for sa, sb in case["pairs"]:
+            ta = torch.randint(0, 2**bits, tuple(sa), dtype=torch.uint8)
+            tb = torch.randint(0, 2**bits, tuple(sb), dtype=torch.uint8)
+            if sa == sb:
+                tb = ta.clone()  # seed on the 'equal' side: the other side is what the solver looks for
+            for opname in BINOPS:
+                cfg = f"{opname} {tuple(sa)} {tuple(sb)}"
+                with Session(res) as m:
+                    X, Y = m.symbolic(ta, "x"), m.symbolic(tb, "y")
+                    pa, pb = PackedTensor.pack(ta, bits), PackedTensor.pack(tb, bits)
+                    n0 = len(m.path)
+                    try:
+                        exp = _apply_binop(opname, ta, tb)
+                    except Exception:
+                        continue  # not a valid program on the unpacked tensors
+                    pe = [c for c in m.path[n0:] if c[2] == "branch"]
+                    n1 = len(m.path)
+                    try:
+                        got = _apply_binop(opname, pa, pb)
+                    except Exception as e:  # noqa
+                        res.side_ok("binop-on-packed-raises", False, f"{cfg}: {type(e).__name__}: {e}")
+                        res.side[-1]["replayed"] = True
+                        res.candidate("binop-on-packed", "side", dict(kind="binops", bits=bits, op=opname, t=api.enc_tensor(ta), t2=api.enc_tensor(tb)), exact=True)
+                        continue
+                    pg = [c for c in m.path[n1:] if c[2] == "branch"]
+                    if isinstance(exp, bool):
+                        E = G = None
+                    else:
+                        E = m.read(exp)
+                        G = m.read(got if type(got) is torch.Tensor else got.unpack())
+                b = bit.Bit(m.ctx)
+                pre = [z3.ULT(b.tr(x), 2**bits) for x in list(X.reshape(-1)) + list(Y.reshape(-1))]
+                if isinstance(exp, bool):
+                    # a Python bool: a recorded branch condition over the operands, or a constant when no kernel compared values
+                    ez = b.tr(pe[-1][0]) if pe else z3.BoolVal(exp)
+                    gz = b.tr(pg[-1][0]) if pg else z3.BoolVal(bool(got))
+                    neq = [ez != gz]
+                else:
+                    if got.shape != exp.shape or got.dtype != exp.dtype:
+                        res.side_ok("binop-on-packed-meta", False, f"{cfg}: {got.shape}/{got.dtype} vs {exp.shape}/{exp.dtype}")
+                        res.side[-1]["replayed"] = True
+                        res.candidate("binop-on-packed", "side", dict(kind="binops", bits=bits, op=opname, t=api.enc_tensor(ta), t2=api.enc_tensor(tb)), exact=True)
+                        continue
+                    neq = [b.tr(a_) != b.tr(c_) for a_, c_ in zip(G.reshape(-1), E.reshape(-1)) if a_ is not c_]
+                    if not neq:
+                        res.query("binop-on-packed", "ALG", "unsat", 0.0, sub=cfg, note="identical terms")
+                        continue
+                v, secs, model = api.solve(pre + [z3.Or(*neq)], 60)
+                res.query("binop-on-packed", "BIT", v, secs, sub=cfg, nvars=ta.numel() + tb.numel())
+                if v == "sat":
+                    va = api.tensor_from_values(api.model_values(b, model, X), tuple(sa), torch.uint8)
+                    vb = api.tensor_from_values(api.model_values(b, model, Y), tuple(sb), torch.uint8)
+                    res.candidate("binop-on-packed", "BIT", dict(kind="binops", bits=bits, op=opname, t=api.enc_tensor(va), t2=api.enc_tensor(vb)), exact=True)
+        return
+
     if case["kind"] == "ops":
         for shape in case["shapes"]:
             shape = tuple(shape)
@@ -389,4 +476,18 @@ def replay(rec):
             got = got.unpack()
         ok = got.shape == exp.shape and got.dtype == exp.dtype and torch.equal(got, exp)
         return (not ok), f"op {inp['op']} on packed {t.tolist()}: expected {exp.tolist()} got {got.tolist()}", None
+    if inp["kind"] == "binops":
+        t2 = api.dec_tensor(inp["t2"])
+        pa, pb = PackedTensor.pack(t, bits), PackedTensor.pack(t2, bits)
+        exp = _apply_binop(inp["op"], t, t2)
+        try:
+            got = _apply_binop(inp["op"], pa, pb)
+        except Exception as e:  # noqa
+            return True, f"{inp['op']} on two packed tensors raised {type(e).__name__}: {e}", None
+        if isinstance(exp, bool):
+            return (bool(got) != exp), f"{inp['op']} on packed {t.tolist()} and {t2.tolist()}: expected {exp} got {got}", None
+        if type(got) is not torch.Tensor:
+            got = got.unpack()
+        ok = got.shape == exp.shape and got.dtype == exp.dtype and torch.equal(got, exp)
+        return (not ok), f"op {inp['op']} on packed {t.tolist()}, {t2.tolist()}: expected {exp.tolist()} got {got.tolist()}", None
     raise KeyError(inp["kind"])
